@@ -638,3 +638,20 @@ def split_includes(rng, toks, max_files=4):
 
 def project_case(cid, files, dirs=()):
     return {"id": cid, "files": {n: d.hex() for n, d in files.items()}, "dirs": list(dirs), "root": "root.jst"}
+
+
+def placed_check(mres, cases, out):
+    """hypothesis of C01_catalog_builder_never_reaches_an_impossible_state, on every forest the
+    model hands to its catalog builder: nested as the context table prescribes"""
+    byid = {c["id"]: c for c in cases}
+    n = 0
+    for cid, m in mres.items():
+        if m.get("p2") != "ok":
+            continue
+        if m.get("placed") is True:
+            n += 1
+        elif m.get("placed") is False and cid in byid:
+            out.broken.append({"what": "an expanded forest that reaches the catalog builder is not nested as the context table prescribes (hypothesis of the totality theorem of Props/C01.v)",
+                               "detail": {k: bytes.fromhex(h).decode("latin1")[:600] for k, h in byid[cid]["files"].items()}})
+    out.coverage["expanded_forests_well_nested"] = out.coverage.get("expanded_forests_well_nested", 0) + n
+    return n
